@@ -14,6 +14,18 @@ pub(crate) struct StaticValue {
     v: Box<dyn Any>,
 }
 
+impl Drop for Set {
+    fn drop(&mut self) {
+        // The values are user data and may hold loom handles (e.g. an `Arc`),
+        // whose destructors need the execution context. When a failed
+        // iteration unwinds out of `Builder::check`, that context is gone:
+        // dropping them now would panic again and abort the process. Leak them.
+        if std::thread::panicking() {
+            std::mem::forget(self.statics.take());
+        }
+    }
+}
+
 impl Set {
     /// Create an empty statics set.
     pub(crate) fn new() -> Set {
